@@ -62,6 +62,8 @@ THEOREMS = [
     'C13_fill_geometry_den',
     'C13_cell_transform_den',
     'C13_fill_geometry_den_tr',
+    'C13_pot_fill_tr_spec',
+    'C13_fill_tr_two_runs',
     'C13_fill_flags_lockstep',
     'C13_options_same_geometry',
     'C13_merged_surfaces_equal_senses',
